@@ -1,6 +1,10 @@
 import PdfModel.Lemmas.EncEncode
 import PdfModel.Lemmas.EncCheck
+<<<<<<< HEAD
 import PdfModel.Lemmas.LzwCheck
+=======
+import PdfModel.Generated.Lexical
+>>>>>>> f81f193907e17783b114467d096b987055d8e3b7
 
 /-!
 # C05 — stream filters decode what standard encoders produce; broken data never panics
@@ -373,5 +377,21 @@ example (X : Ext) (z : Bytes) (hz : X.inflateZlib z = some [2, 9, 8, 2, 1, 1])
   refine .cons (.cons (.cons .nil (.flateZlib ?_ hz)) (.rl hrl)) (.hex hhx)
   exact Predicts.png (p := { predictor := 12, colors := 1, bpc := 8, columns := 2 }) (bpp := 1) (S := 2)
     (rs := [(.up, [9, 8]), (.up, [10, 9])]) (by decide) (by decide) (by decide)
+
+end Enc
+
+/-! ## Tie to the source: constants and byte classes (appended by the translator package)
+
+`Generated/Lexical.lean` is re-extracted from `pdf/src` by `./check` before this file is built. -/
+
+namespace Enc
+
+/-- the white-space bytes skipped by the ASCIIHex and ASCII85 decoders are the ones of `decode_hex` / `decode_85` -/
+theorem constants_match_source :
+    ((List.range 256).filter (fun n => Enc.hexWs (UInt8.ofNat n)) = Generated.hexDecodeWhitespace) ∧
+    ((List.range 256).filter (fun n => Enc.ws85 (UInt8.ofNat n)) = Generated.a85DecodeWhitespace) := by
+  refine ⟨?_, ?_⟩
+  · first | decide +kernel | fail "constants_match_source (C05): the model's Enc.hexWs does not match the source (Generated.hexDecodeWhitespace, re-extracted from pdf/src)"
+  · first | decide +kernel | fail "constants_match_source (C05): the model's Enc.ws85 does not match the source (Generated.a85DecodeWhitespace, re-extracted from pdf/src)"
 
 end Enc
